@@ -197,3 +197,7 @@ contract(F, "Fiber.__setitem__",
 contract(F, "Fiber.clear", types=dict(self="Fiber"),
          modifies=["list:self.coords", "list:self.payloads", "self._is_lazy"],
          ensures={"C01": ["len(self.coords) == 0", "len(self.payloads) == 0", "not self._is_lazy"]})
+
+contract(F, "Fiber.isEmpty", verify=False, tier="B", types=dict(self="Fiber"), returns="bool", modifies=[],
+         ensures=["result == self.g_empty"],
+         note="depth-recursive emptiness abstracted by the ghost field g_empty; agreement with content is checked by C12's bounded part")
